@@ -10,9 +10,9 @@ PROD = {"plit": "1", "pstr": "'a'", "pvar": "m", "pnot": "(not m)", "pisdef": "(
         "pnone": "none", "pundefopt": "m?.zz", "pfloat": "2.5", "pbytes": "by"}
 CONS = {"cadd": "{{ P + 1 }}", "cneg": "{{ -P }}", "cupper": "{{ P | upper }}", "cabs": "{{ P | abs }}", "cfor": "{% for q in P %}{% endfor %}", "clt": "{{ P < 1 }}",
         "cspreadm": "{{ {...P } }}", "cspreada": "{{ [...P] }}", "creplace": "{{ P | replace(from='a', to='b') }}", "cdiv0": "{{ P / 0 }}", "crange": "{{ range(start=-5, end=P) }}",
-        "cisdiv": "{{ P is divisible_by(divisor=2) }}"}
+        "cisdiv": "{{ P is divisible_by(divisor=2) }}", "ccomp": "{{<tn n={ P } />}}", "ccompbody": "{% <tn n={ P }> %}b{% </tn> %}"}
 BUILTIN_CONS = ("cupper", "cabs", "creplace", "crange", "cisdiv")
-OKCOMP = "{% component ok() %}o{% endcomponent ok %}"
+OKCOMP = "{% component ok() %}o{% endcomponent ok %}{% component tn(n: integer) %}{{ n }}{% endcomponent tn %}"
 CTX = {"m": {"a": 1}, "xs": [1], "nm": "n", "by": {"$bytes": [65, 66]}}
 # hosts: where the expression stands (name -> templates around S, entry)
 HOSTS = {
